@@ -2,12 +2,14 @@ import Driver.Proto
 import Driver.OpsSpec
 import Driver.OpsBits
 import Driver.OpsSizes
+import Driver.OpsBitfields
+import Driver.OpsMerkle
 import Driver.OpsHist
 open Driver
 
 /-- stateless op families: each returns `none` for ops it does not know -/
 def families : List (String → List String → List String → Option (Except String (String × String))) :=
-  [ OpsSizes.handle, OpsSpec.handle, OpsBits.handle ]
+  [ OpsSizes.handle, OpsSpec.handle, OpsBits.handle, OpsBitfields.handle, OpsMerkle.handle ]
 
 /-- dispatch one line `op args… => impl observation…`: returns `<model> ## <verdict>` -/
 def handleLine (hs : OpsHist.HState) (line : String) : OpsHist.HState × String :=
